@@ -114,6 +114,43 @@ func Run(g *Group, rng *rand.Rand, ntraces, steps int, tr0 int, emit func(Event)
 			return Event{Op: op, Tr: tr, G: g.Name, Impl: g.Impl, K: []int{}, M: []int{}, N: []int{}, Q: []int{}, R: []int{}, Cof: int(g.Cof)}
 		}
 		emit(ev("reset"))
+		if t == 0 && g.Combined != nil && g.Base != nil && g.NRegs >= 2 {
+			// deterministic sweep of the exceptional cases of m*G + n*S: S = d*G for small d and for -G, n small / near the order, and
+			// m = -n*d (the two partial results cancel: identity) resp. m = n*d (they coincide: a doubling) - in both parities of m
+			half := new(big.Int).Rsh(g.L, 1)
+			func() {
+			defer func() {
+				if r := recover(); r != nil {
+					e := ev("panic")
+					e.Note = fmt.Sprint(r)
+					emit(e)
+				}
+			}()
+			for _, d := range []*big.Int{big.NewInt(1), new(big.Int).Sub(g.L, big.NewInt(1)), big.NewInt(2), big.NewInt(3), big.NewInt(7)} {
+				e := ev("base")
+				e.Dst, e.K = 0, vlib.Digits(d)
+				g.Base(0, d)
+				form[0] = red(&e, d)
+				emit(e)
+				for _, n := range []*big.Int{big.NewInt(1), big.NewInt(2), big.NewInt(3), big.NewInt(4), big.NewInt(5), big.NewInt(6),
+					new(big.Int).Sub(g.L, big.NewInt(1)), new(big.Int).Sub(g.L, big.NewInt(2)), half, pick()} {
+					nd := new(big.Int).Mod(new(big.Int).Mul(n, form[0]), g.L)
+					for _, m := range []*big.Int{new(big.Int).Mod(new(big.Int).Neg(nd), g.L), nd} {
+						if m.Cmp(g.ScalarMax) > 0 || n.Cmp(g.ScalarMax) > 0 {
+							continue
+						}
+						e := ev("combined")
+						e.Dst, e.A, e.M, e.N = 1, 0, vlib.Digits(m), vlib.Digits(n)
+						g.Combined(1, 0, m, n)
+						form[1] = red(&e, new(big.Int).Add(m, new(big.Int).Mul(n, form[0])))
+						emit(e)
+					}
+				}
+			}
+			}()
+			emit(ev("reset"))
+			form = map[int]*big.Int{}
+		}
 		set := func() []int {
 			var s []int
 			for r := range form {
